@@ -488,6 +488,37 @@ def r9_ambient_state(ctx, sym):
 _STORES = {'append', 'add', 'setdefault', 'insert', 'id', 'type', 'isinstance'}
 
 
+def _table_methods(sym, ci):
+    """Methods of the class that one of its class-level tables names (as a bare name or as a string)."""
+    out, seen = [], set()
+    for k in sym.mro(ci):
+        node = getattr(k, 'node', None)
+        if node is None:
+            continue
+        for st in node.body:
+            if isinstance(st, ast.Assign) and isinstance(st.value, (ast.Dict, ast.Tuple, ast.List, ast.Set)):
+                for x in ast.walk(st.value):
+                    name = x.id if isinstance(x, ast.Name) else (
+                        x.value if isinstance(x, ast.Constant) and isinstance(x.value, str) else None)
+                    if name and name not in seen:
+                        got = sym.method(ci, name)
+                        if got is not None and got[0].module.name.startswith('pedal.'):
+                            seen.add(name)
+                            out.append((name, got[1]))
+    return out
+
+
+def _is_import_or_builtin(mod, name):
+    import builtins
+    if hasattr(builtins, name):
+        return True
+    for node in ast.walk(mod.tree):
+        if isinstance(node, (ast.Import, ast.ImportFrom)):
+            if any((a.asname or a.name.split('.')[0]) == name for a in node.names):
+                return True
+    return False
+
+
 def r10_trace_functions_only_store(ctx, sym):
     ctx.rule('R10', "a trace function runs inside the student's frames: whatever it raises is raised in the student's "
                     "program, and whatever student method it runs the plain program would not have run. In every trace "
@@ -585,7 +616,21 @@ def r10_trace_functions_only_store(ctx, sym):
                                 k.arg for k in node.keywords if k.arg and holds(k.value))
                             work.append((last, callee, 'none', tp))
                         elif last not in _STORES:
-                            bad.append((node, "passes a value of the student's frame to %s()" % (cname or last)))
+                            # dispatch through a class-level table (`handler(self, frame, args)` for a handler looked
+                            # up in `_EVENT_HANDLERS`, `getattr(self, recorder)(frame, args)`): every method the
+                            # class's tables name is a possible callee and is analysed with the same taint
+                            dispatched = _table_methods(sym, ci) if (
+                                isinstance(node.func, ast.Name) and node.func.id not in ('deepcopy', 'copy') and
+                                not _is_import_or_builtin(tmod, node.func.id)) or (
+                                isinstance(node.func, ast.Call) and call_name(node.func) == 'getattr') else []
+                            if dispatched:
+                                pos = [a for a in node.args if not (isinstance(a, ast.Name) and a.id == 'self')]
+                                for mname, callee in dispatched:
+                                    cparams = [a.arg for a in callee.args.args][1:]
+                                    tp = frozenset(p_ for p_, a in zip(cparams, pos) if holds(a))
+                                    work.append((mname, callee, 'none', tp))
+                            else:
+                                bad.append((node, "passes a value of the student's frame to %s()" % (cname or last)))
                     elif cname.startswith('self.') and cname.count('.') == 1 and sym.method(ci, last) is not None and \
                             sym.method(ci, last)[0].module.name.startswith('pedal.') and \
                             any(isinstance(a, ast.Name) and a.id == 'frame' for a in args_):
